@@ -319,7 +319,9 @@ func (st *State) subObj(ref, key string) string {
 		key2 := "fb:" + t
 		if !st.declSet[key2] {
 			st.declSet[key2] = true
-			st.assume(and(eq("(fld_base "+t+")", ref), eq("(obj_root "+t+")", "(obj_root "+ref+")")))
+			// fld_addr is a constructor: base and field are recoverable from the address (two different fields, of the same
+			// or of different objects, are different locations)
+			st.assume(and(eq("(fld_base "+t+")", ref), eq("(obj_root "+t+")", "(obj_root "+ref+")"), eq("(fld_id "+t+")", fmt.Sprint(fid))))
 		}
 	}
 	return t
